@@ -11,7 +11,7 @@ R-C08-6  only add_guard / restore_guard / ignore_errors write guard state
 import ast
 
 from ..cfg import CFG, calls_in, own_stmt_part
-from ..loader import norm, AnalysisError, target_names
+from ..loader import norm, AnalysisError, target_names, parents
 from ..poly import P
 
 RT = "pysnark.runtime"
@@ -503,8 +503,18 @@ def rule_conjunction(repo, rule):
                         if None not in ps and ps[0] * ps[1] - ps[2] == G * C - P.sym("n"):
                             return True
             return False
+        def _public_zero(pth_):
+            """the path of a PUBLIC condition that is 0 / False: the region is dead for every witness"""
+            zero = any(norm(t_).replace(" ", "") in ("%s==0" % cond, "0==%s" % cond, "%s==False" % cond, "not%s" % cond) and pol_ for t_, pol_ in pth_.conds)
+            wire = any(norm(t_).replace(" ", "") in ("isinstance(%s,LinComb)" % cond,) and pol_ for t_, pol_ in pth_.conds)
+            return zero and not wire
         sem_ok, sem_why, seen_any = True, "", False
         for pth in _pt8(ag.node, s) or []:
+            if _public_zero(pth):
+                seen_any = True
+                if norm(vres) not in ("LinComb.ZERO", "ConstVal(0)", "runtime.LinComb.ZERO"):
+                    sem_ok, sem_why = False, "public condition 0: the new guard is `%s`, expected the constant zero wire" % norm(vres)
+                continue
             for label, facts, allowed in scen:
                 if any(_pe(t_, facts) is not None and _pe(t_, facts) != pol_ for t_, pol_ in pth.conds):
                     continue          # this path is not taken in this scenario
@@ -541,6 +551,35 @@ def rule_conjunction(repo, rule):
     for s, v in by.get("_ignore_errors", []):
         ok = isinstance(v, ast.BoolOp) and isinstance(v.op, ast.Or) and any(norm(x) == "_ignore_errors" for x in v.values) \
             and any(_is_zero_test(x, cond) for x in v.values)
+        if not ok and norm(v) == "True":
+            # a region opened with the public condition 0 is dead for every witness: suppression is simply on
+            from ..hints import paths_to as _pt8b
+            pz = _pt8b(ag.node, s) or []
+            ok = bool(pz) and all(any(norm(t_).replace(" ", "") in ("%s==0" % cond, "0==%s" % cond, "not%s" % cond) and pol_ for t_, pol_ in p_.conds)
+                                  for p_ in pz)
+            if ok:
+                # ... and then the guard wire must be the zero wire whenever this statement runs (suppressed checks are only safe
+                # behind a guard that is 0): a write `guard = <zero wire>` governed by no test beyond those governing this one
+                def _gov(st_):
+                    out_ = set()
+                    ch_ = st_
+                    for p_ in parents(st_):
+                        if isinstance(p_, ast.If):
+                            out_.add((id(p_), any(ch_ is b_ for b_ in p_.body)))
+                        if isinstance(p_, (ast.FunctionDef, ast.AsyncFunctionDef)):
+                            break
+                        ch_ = p_
+                    return out_
+                zero_writes = [s2 for s2, v2 in by.get("guard", []) if norm(v2) in ("LinComb.ZERO", "ConstVal(0)", "runtime.LinComb.ZERO",
+                                                                                    "guard * 0", "0 * guard")]
+                if not any(_gov(s2) <= _gov(s) for s2 in zero_writes):
+                    rule.violation(ag.loc(s), ag.fq, norm(s),
+                                   "a public condition 0 switches error suppression on, but the guard becomes the zero wire only under a "
+                                   "further test (%s): nested in a region that is taken the guard wire stays 1 while run-time checks are off"
+                                   % "; ".join(sorted({norm(p_.test) for s2 in zero_writes for p_ in parents(s2) if isinstance(p_, ast.If)
+                                                       and (id(p_), True) not in _gov(s) and (id(p_), False) not in _gov(s)}))[:80],
+                                   "conj/ignore-public-zero")
+                    continue
         if ok:
             rule.ok(ag.loc(s), ag.fq, norm(s), "suppression is or-ed with `%s.value == 0`" % cond)
         else:
